@@ -37,10 +37,27 @@ import (
 
 // ---------------------------------------------------------------- input / impl types
 
+// c16Cfg: every field of the off-chain config (zero values: the field is written as 0 / omitted and the
+// decoder's default applies).  Only the first three influence Report at HEAD.
 type c16Cfg struct {
 	Batch    int    `json:"batch"`
 	GasLimit uint32 `json:"gasLimit"`
 	Overhead uint32 `json:"overhead"`
+	Lag      int    `json:"lag"`      // reportBlockLag
+	Lockout  int64  `json:"lockout"`  // performLockoutWindow (ms)
+	Prob     string `json:"prob"`     // targetProbability ("" = omitted)
+	Rounds   int    `json:"rounds"`   // targetInRounds
+	Sampling int64  `json:"sampling"` // samplingJobDuration (ms): the per-head sampling window
+	MinConfs int    `json:"minConfs"` // minConfirmations
+	Mercury  bool   `json:"mercury"`  // mercuryLookup
+}
+
+// c16Window: the effective per-head sampling window in ms
+func c16Window(c c16Cfg) int64 {
+	if c.Sampling <= 0 {
+		return 3000
+	}
+	return c.Sampling
 }
 
 type c16Perform struct {
@@ -92,6 +109,9 @@ type c16Head struct {
 	// with After: the key (block|id) that observation listed is then accepted as a finalized report would be
 	// (ShouldAcceptFinalizedReport -> Coordinator.Accept) and Observation() is called once more, same head
 	AcceptAfter bool `json:"acceptAfter"`
+	// with MidAt reached: the observer stays parked inside that Eligible call for StallMs of virtual time (a slow
+	// encoder / result decoding), e.g. longer than the per-head sampling window, before it goes on
+	StallMs int64 `json:"stallMs"`
 }
 
 // c16Prior: an earlier plugin instance created by the SAME factory (libocr keeps one factory per job and
@@ -159,6 +179,9 @@ type c16Point struct {
 	OutErr string    `json:"outErr"`
 	OutDec c16Dec    `json:"outDec"`
 	Seen   []c16Seen `json:"seen"`
+	// the very slice Observation() returned, read again at the end of the case (after all later calls of this and
+	// of another instance of the process), hex
+	OutEnd string `json:"outEnd"`
 	// keys the harness had accepted (AcceptAfter) before this call, in order
 	Accepted []string `json:"accepted"`
 }
@@ -404,6 +427,8 @@ func (s *c16Source) GetActiveUpkeepIDs(context.Context) ([]v2.UpkeepIdentifier, 
 }
 
 type c16Node struct {
+	fac    ocr2types.ReportingPluginFactory
+	pc     ocr2types.ReportingPluginConfig
 	plugin ocr2types.ReportingPlugin
 	enc    *c16Enc
 	run    *c16Runner
@@ -427,7 +452,12 @@ func c16NewNode(in c16Input) (*c16Node, error) {
 		digest[i] = byte(in.Digest >> (8 * i))
 	}
 	confOf := func(c c16Cfg) []byte {
-		return []byte(fmt.Sprintf(`{"maxUpkeepBatchSize":%d,"gasLimitPerReport":%d,"gasOverheadPerUpkeep":%d}`, c.Batch, c.GasLimit, c.Overhead))
+		prob := ""
+		if c.Prob != "" {
+			prob = fmt.Sprintf(`,"targetProbability":%q`, c.Prob)
+		}
+		return []byte(fmt.Sprintf(`{"maxUpkeepBatchSize":%d,"gasLimitPerReport":%d,"gasOverheadPerUpkeep":%d,"reportBlockLag":%d,"performLockoutWindow":%d,"targetInRounds":%d,"samplingJobDuration":%d,"minConfirmations":%d,"mercuryLookup":%v%s}`,
+			c.Batch, c.GasLimit, c.Overhead, c.Lag, c.Lockout, c.Rounds, c.Sampling, c.MinConfs, c.Mercury, prob))
 	}
 	pc := ocr2types.ReportingPluginConfig{ConfigDigest: digest, OracleID: 0, N: 4, F: 1}
 	// the same factory serves every configuration of the job, one instance after the other
@@ -456,7 +486,7 @@ func c16NewNode(in c16Input) (*c16Node, error) {
 	if info.Limits.MaxObservationLength != v2.MaxObservationLength {
 		return nil, fmt.Errorf("advertised MaxObservationLength %d", info.Limits.MaxObservationLength)
 	}
-	n.plugin = p
+	n.plugin, n.fac, n.pc = p, fac, pc
 	n.ts = ocr2types.ReportTimestamp{ConfigDigest: digest, Epoch: in.Epoch, Round: in.Round}
 	return n, nil
 }
@@ -518,11 +548,13 @@ func c16Run(t *testing.T, in c16Input) (impl c16Impl) {
 
 	if in.Mode == "obs" {
 		accepted := []string{}
+		var held [][]byte // what Observation() returned, kept as libocr keeps it until the round is over
 		var lastKey string // block|id of the single id the latest observation listed ("" if none)
 		observe := func(n int, phase string) {
 			node.cf.rec.take()
 			p := c16Point{N: n, Phase: phase, Accepted: append([]string{}, accepted...)}
 			lastKey = ""
+			held = append(held, nil)
 			func() {
 				defer func() {
 					if r := recover(); r != nil {
@@ -535,6 +567,7 @@ func c16Run(t *testing.T, in c16Input) (impl c16Impl) {
 				}
 				p.Out = hx(b)
 				p.OutDec = c16Decode(b)
+				held[len(held)-1] = b
 				if p.OutDec.OK && len(p.OutDec.Ids) == 1 && p.OutDec.Ids[0] != nil {
 					k := p.OutDec.Block + "|" + string(unhx(*p.OutDec.Ids[0]))
 					if _, _, err := (v2enc.BasicEncoder{}).SplitUpkeepKey(v2.UpkeepKey(k)); err == nil && utf8.ValidString(k) {
@@ -568,6 +601,9 @@ func c16Run(t *testing.T, in c16Input) (impl c16Impl) {
 			node.enc.mu.Unlock()
 			if reached {
 				observe(i, "mid")
+				if h.StallMs > 0 {
+					time.Sleep(time.Duration(h.StallMs) * time.Millisecond) // the sampling window may run out meanwhile
+				}
 				close(rel)
 				synctest.Wait()
 			}
@@ -588,6 +624,24 @@ func c16Run(t *testing.T, in c16Input) (impl c16Impl) {
 			}
 		}
 		observe(len(in.Heads), "final")
+		// another instance of the same factory in the same process (config change: libocr starts the successor)
+		// encodes an observation of its own
+		if succ, _, err := node.fac.NewReportingPlugin(ctx, node.pc); err != nil {
+			impl.Setup += " successor: " + err.Error()
+		} else {
+			synctest.Wait()
+			old := node.plugin
+			node.plugin = succ
+			observe(0, "successor")
+			node.plugin = old
+			if err := succ.Close(); err != nil {
+				impl.Setup += " successor close: " + err.Error()
+			}
+			synctest.Wait()
+		}
+		for i := range impl.Points {
+			impl.Points[i].OutEnd = hx(held[i])
+		}
 		return impl
 	}
 
@@ -742,7 +796,34 @@ func c16RawObs(block string, ids []string) []byte {
 	return buf.Bytes()
 }
 
+// c16GenCfg: every off-chain config field takes default (zero / omitted) and non-default values.
 func c16GenCfg(r *Rng) c16Cfg {
+	c := c16GenLimits(r)
+	if r.Chance(45) {
+		c.Lag = []int{-3, 1, 2, 5, 100, 1000, 1 << 40}[r.Intn(7)]
+	}
+	if r.Chance(40) {
+		c.Lockout = []int64{-5, 60_000, 1_200_000, 86_400_000}[r.Intn(4)]
+	}
+	if r.Chance(40) {
+		// pairs whose sample ratio (n-f = 3) is at least 0.5: a non-empty registry gives a non-empty sample
+		pr := []struct {
+			p string
+			r int
+		}{{"0.99999", 1}, {"0.9", 1}, {"0.999", 0}, {"1", 3}, {"0.99999", 2}, {"0.999999", 3}, {"0.875", -1}}[r.Intn(7)]
+		c.Prob, c.Rounds = pr.p, pr.r
+	}
+	if r.Chance(50) {
+		c.Sampling = []int64{-1, 20, 50, 500, 3000, 10_000}[r.Intn(6)]
+	}
+	if r.Chance(35) {
+		c.MinConfs = []int{-1, 1, 2}[r.Intn(3)]
+	}
+	c.Mercury = r.Chance(20)
+	return c
+}
+
+func c16GenLimits(r *Rng) c16Cfg {
 	var c c16Cfg
 	c.Batch = []int{-1, 0, 1, 2, 2, 3, 3, 5, 10, 20}[r.Intn(10)]
 	switch r.Intn(8) {
@@ -1210,6 +1291,21 @@ func c16GenObsShift(r *Rng, em *Emitter) c16Input {
 			h.MidAt = r.Range(1, np+1) // np+1: beyond the last result, never reached
 			em.Hit("mid-observe")
 		}
+		if hi < nh-1 && h.MidAt == 0 && r.Chance(50) {
+			h.MidAt = r.Range(1, np)
+		}
+		if h.MidAt > 0 {
+			switch w := c16Window(in.Cfg); r.Intn(4) {
+			case 0: // the sampling window runs out while the results are being staged
+				h.StallMs = w + int64(r.Range(3, 40))
+				em.Hit("stall>window")
+			case 1:
+				h.StallMs = w - int64(r.Range(3, 15))
+				em.Hit("stall<window")
+			case 2:
+				h.StallMs = int64(r.Range(1, 10))
+			}
+		}
 		if r.Chance(5) {
 			h.RunErr = true
 		}
@@ -1273,6 +1369,10 @@ func c16GenObs(r *Rng, em *Emitter) c16Input {
 		if r.Chance(40) {
 			h.MidAt = r.Range(1, nr+1)
 			em.Hit("mid-observe")
+			if r.Chance(40) {
+				h.StallMs = c16Window(in.Cfg) + int64(r.Range(-15, 40))
+				em.Hit("stall~window")
+			}
 		}
 		h.After = r.Chance(40)
 		h.AcceptAfter = h.After && r.Chance(50)
@@ -1365,6 +1465,13 @@ func c16Edge() []c16Input {
 		out = append(out, c16Input{Mode: "report", Prior: []c16Prior{{Bad: true}}, Cfg: c16Cfg{Batch: 2, GasLimit: 1_500_000, Overhead: 100_000}, Coord: fake, Obs: five, Script: sc})
 		out = append(out, c16Input{Mode: "report", Prior: []c16Prior{{Cfg: c16Cfg{Batch: 1, GasLimit: 700_000, Overhead: 100_000}}}, Cfg: loose, Coord: fake, Obs: five, Script: sc})
 	}
+	// a configured reportBlockLag is not subtracted from the median (valid blocks 1,100,101,102 -> 101)
+	for _, lag := range []int{5, 1000} {
+		cfg := def
+		cfg.Lag = lag
+		out = append(out, c16Input{Mode: "report", Cfg: cfg, Coord: fake, Obs: []string{obs("1", "7"), obs("100", "7"), obs("101", "7"), obs("102", "7")},
+			Script: c16Script{Items: all(1, c16Item{Eligible: true, Gas: 1})}})
+	}
 	// decodable but invalid observations must not take part in the median (valid blocks 100,101[,102] -> 101)
 	one := c16Script{Items: all(1, c16Item{Eligible: true, Gas: 1})}
 	out = append(out, c16Input{Mode: "report", Cfg: def, Coord: fake, Script: one, Obs: []string{obs("100", "7"), obs("101", "7"), obs("-1", "7")}})
@@ -1383,6 +1490,28 @@ func c16Edge() []c16Input {
 		h2 := hd("101", el("101|3"), c16HeadRes{Key: "101|1"}, c16HeadRes{Key: "101|2"})
 		h2.MidAt, h2.After = k, true
 		out = append(out, c16Input{Mode: "obs", Cfg: def, Coord: fake, Heads: []c16Head{h1, h2}})
+	}
+	for _, w := range []int64{0, 20} {
+		cfg := def
+		cfg.Sampling = w
+		h1 := hd("100", el("100|1"), el("100|2"), el("100|3"))
+		h1.MidAt, h1.StallMs, h1.After = 2, c16Window(cfg)+5, true
+		h2 := hd("101", c16HeadRes{Key: "101|1"}, c16HeadRes{Key: "101|2"}, c16HeadRes{Key: "101|3"})
+		h2.After = true
+		h3 := hd("102", el("102|3"))
+		out = append(out, c16Input{Mode: "obs", Cfg: cfg, Coord: fake, Heads: []c16Head{h1, h2, h3}})
+	}
+	// blocks and ids of different lengths over several rounds: bytes returned earlier must stay as they were
+	{
+		h1 := hd("99", el("99|7"))
+		h1.After = true
+		h2 := hd("100", el("100|"+c16Max256))
+		h2.After, h2.MidAt = true, 1
+		h3 := hd("101")
+		h3.After = true
+		h4 := hd("1000000", el("1000000|8"))
+		h4.After = true
+		out = append(out, c16Input{Mode: "obs", Cfg: def, Coord: fake, Heads: []c16Head{h1, h2, h3, h4}})
 	}
 	for _, kind := range []string{"fake", "real"} {
 		h1 := hd("100", el("100|5"), el("100|6"))
